@@ -156,6 +156,16 @@ def r08_34(ctx):
         r0, n0 = field_path(strip_all(f['from']))
         ok = r0 == ('param', 1) and n0 == ['current_point', '0'] and f['ctrl1'] == ('param', 2) and f['ctrl2'] == ('param', 3) and f['to'] == ('param', 4)
     ctx.check(ok, R, 'draw_target::DrawTarget::cubic_to|segment', b.loc(), 'CubicBezierSegment{from: current, ctrl1, ctrl2, to}', 'cubic_to does not build the segment (current point, cpt1, cpt2, pt) in that order')
+    # the points handed to cubic_to are already in device space: the conversion tolerance is a fixed fraction of a device
+    # pixel and must not depend on the transform (or on anything else)
+    fq = [ct for bi, d, ct in calls_in(ctx, b) if d and d.endswith('::for_each_quadratic_bezier')]
+    okt = len(fq) == 1
+    tol = None
+    if okt:
+        tol = const_val(strip_all(fq[0][2][1]))
+        okt = isinstance(tol, float) and 0. < tol <= 0.25
+    ctx.check(okt, R, 'draw_target::DrawTarget::cubic_to|tolerance', b.loc(), 'for_each_quadratic_bezier(constant %s device px, ..)' % tol,
+              'cubic_to converts the (device-space) cubic to quadratics with tolerance %s, expected a constant of at most a quarter of a device pixel: a tolerance that depends on the transform is applied twice (the points are already transformed) and under a down-scaling transform the curve is approximated pixels away from its true outline' % (fmt(b, fq[0][2][1])[:120] if len(fq) == 1 else '(%d calls)' % len(fq)))
     cl = ctx.body(DT + 'cubic_to::{closure#0}', R)
     cs = [ct for bi, d, ct in calls_in(ctx, cl) if d == DT + 'add_quad']
     ok = len(cs) == 1
@@ -896,3 +906,176 @@ def r01_9(ctx):
         okg = okg and good
     ctx.check(okg, R, key + '|swap only when strictly greater', b.loc(), 'neighbours are swapped iff node.fullx > successor.fullx',
               'the swap is not guarded by node.fullx > successor.fullx (guards seen: %s): with >= two edges at the same x are swapped on every pass and the sort never terminates; with the comparison reversed the list is sorted right-to-left and spans are produced in the wrong order' % sorted(set(seen)))
+
+
+def r01_10(ctx):
+    """every rasterisation uses the winding rule of the path that was applied: rasterize(.., path.winding) where `path`
+    is the argument handed to apply_path in the same function (fill and push_clip must agree on this)"""
+    R = 'R01.10'
+    n = 0
+    for q, b in sorted(ctx.F.bodies.items()):
+        sites = [(bi, ct) for bi, d, ct in calls_in(ctx, b) if d == RAS + 'rasterize']
+        if not sites:
+            continue
+        aps = [ct for bi, d, ct in calls_in(ctx, b) if d == DT + 'apply_path']
+        for bi, ct in sites:
+            n += 1
+            w = strip_all(ct[2][2])
+            ok = False
+            shown = fmt(b, w)
+            if len(aps) == 1:
+                def peel(t):
+                    t = strip_all(t)
+                    while t[0] in ('ref', 'deref'):
+                        t = strip_all(t[1])
+                    return t
+                p = peel(aps[0][2][1])
+                ok = w[0] == 'field' and w[2] == 'winding' and peel(w[1]) == p and p[0] == 'param'
+            ctx.check(ok, R, '%s|rasterize winding' % short(q), call_line(b, bi), 'rasterize(.., path.winding) of the applied path',
+                      '%s rasterises with the winding rule %s instead of the winding of the path it applied: an even-odd path is filled (or used as a clip) with the wrong rule, e.g. the holes of an even-odd clip path are treated as inside' % (short(q), shown))
+    ctx.floor(R, 'rasterize call sites', n, 3)
+
+
+def r10_5(ctx):
+    """every constructor of DrawTarget creates the rasteriser for the surface's own dimensions:
+    DrawTarget { width: W, height: H, rasterizer: Rasterizer::new(W, H), .. } (the three constructors must agree), and
+    Rasterizer::new stores its arguments in that order"""
+    R = 'R10.5'
+    n = 0
+    for q, b in sorted(ctx.F.bodies.items()):
+        an = ctx.an(b)
+        for bi, k2, s in b.statements():
+            if bi in an.cfg.reach and s['k'] == 'assign' and s['rv']['k'] == 'agg' and s['rv'].get('adt') == 'raqote::draw_target::DrawTarget':
+                t = an.rvalue_term(bi, k2, s['rv'])
+                f = dict(t[4])
+                n += 1
+                r = strip_all(f.get('rasterizer', ('unknown',)))
+                ok = is_call(r, RAS + 'new') and len(r[2]) == 2 and nosite(r[2][0]) == nosite(f.get('width')) and nosite(r[2][1]) == nosite(f.get('height'))
+                ctx.check(ok, R, '%s|rasterizer dimensions' % short(q), b.loc(s['sp']), 'rasterizer: Rasterizer::new(width, height) of the same surface',
+                          '%s builds a DrawTarget {width: %s, height: %s} whose rasteriser is %s: the rasteriser culls, clamps and sizes its row table with other dimensions than the surface (on a non-square surface spans run past the coverage mask)' % (short(q), fmt(b, f.get('width', ('unknown', '?'))), fmt(b, f.get('height', ('unknown', '?'))), fmt(b, r)[:120]))
+    ctx.floor(R, 'DrawTarget constructors', n, 3)
+    nb = ctx.body(RAS + 'new', R)
+    rts = shared.ret_terms(ctx, nb)
+    ok = len(rts) == 1 and rts[0][0] == 'agg'
+    if ok:
+        f = dict(rts[0][4])
+        def scaled(t, p):
+            t = strip_all(t)
+            if is_call(t, 'rasterizer::int_to_dot2') and len(t[2]) == 1:
+                return strip_all(t[2][0]) == ('param', p)
+            pp = poly(t)
+            return len(pp.leaves()) == 1 and ('param', p) in pp.leaves() and pp.coeff_of(('param', p)) > 0
+        ok = scaled(f.get('width', ('unknown',)), 1) and scaled(f.get('height', ('unknown',)), 2)
+    ctx.check(ok, R, 'rasterizer::Rasterizer::new|argument order', nb.loc(), 'Rasterizer::new(width, height) stores width from its first and height from its second argument (scaled to sample units)',
+              'Rasterizer::new does not derive self.width from its first and self.height from its second argument')
+
+
+def r01_11(ctx):
+    """the bounds accumulated in add_edge cover every edge end point: left/top are rounded down (dot2_to_int(v + k), k <= 0),
+    right/bottom are rounded up (k >= 2^SAMPLE_SHIFT - 1), both x ends feed left and right, and these updates happen on every
+    path that inserts the edge.  (The bounds size the coverage mask; spans are clamped to it, so a bound that is one
+    pixel short silently drops the last column/row of coverage.)"""
+    R = 'R01.11'
+    b = ctx.body(RAS + 'add_edge', R)
+    an = ctx.an(b)
+    cfg = an.cfg
+    key = 'rasterizer::Rasterizer::add_edge'
+    db = ctx.body('raqote::rasterizer::dot2_to_int', R)
+    rt = shared.ret_terms(ctx, db)
+    sh = None
+    if len(rt) == 1 and rt[0][0] == 'bin' and rt[0][1] == 'Shr' and rt[0][2] == ('param', 1):
+        sh = const_val(rt[0][3])
+    if not ctx.check(isinstance(sh, int) and 0 < sh < 8, R, 'rasterizer::dot2_to_int|shift', db.loc(), 'dot2_to_int(v) = v >> %s' % sh, 'cannot read dot2_to_int as a right shift by a constant (fail closed)'):
+        return
+    up = (1 << sh) - 1
+    inserts = [pt[0] for a, v, pt, kind in an.stores if kind == 'assign' and field_path(a)[1][:1] == ['edge_starts']]
+    if not ctx.check(len(inserts) >= 1, R, key + '|insertion', b.loc(), 'insertion into edge_starts found', 'cannot find the insertion into edge_starts (fail closed)'):
+        return
+    want = {'bounds_left': ('min', 'x', None), 'bounds_right': ('max', 'x', None), 'bounds_top': ('min', 'y', 2), 'bounds_bottom': ('max', 'y', 3)}
+    feeds = {}
+    n = 0
+    for a, v, pt, kind in an.stores:
+        r, nm = field_path(a)
+        if kind != 'assign' or r != ('param', 1) or not nm or nm[0] not in want:
+            continue
+        n += 1
+        f = nm[0]
+        mm, axis, _ = want[f]
+        v = strip_all(v)
+        ok = v[0] == 'call' and isinstance(v[1], str) and v[1].endswith('Ord::' + mm) and len(v[2]) == 2
+        other = None
+        if ok:
+            args = [strip_all(x) for x in v[2]]
+            mine = [x for x in args if is_self_field(x, f)]
+            rest = [x for x in args if not is_self_field(x, f)]
+            ok = len(mine) == 1 and len(rest) == 1 and is_call(rest[0], 'rasterizer::dot2_to_int')
+            other = rest[0] if ok else None
+        loc = b.loc(b.blocks[pt[0]]['st'][pt[1]]['sp'])
+        if not ctx.check(ok, R, key + '|%s update form' % f, loc, '%s = %s(%s, dot2_to_int(..))' % (f, mm, f), '%s is not updated as %s(self.%s, dot2_to_int(..)): %s' % (f, mm, f, fmt(b, v)[:160])):
+            continue
+        p = poly(other[2][0])
+        k = p.d.get((), 0)
+        nonconst = {m: c for m, c in p.d.items() if m != ()}
+        okp = len(nonconst) == 1 and list(nonconst.values())[0] == 1 and len(list(nonconst)[0]) == 1
+        if mm == 'min':
+            okk = okp and k <= 0
+            msg = 'rounded down (offset %s)' % k
+        else:
+            okk = okp and k >= up
+            msg = 'rounded up (offset %s, needs >= %d)' % (k, up)
+        ctx.check(okk, R, key + '|%s rounding' % f, loc, '%s: %s' % (f, msg),
+                  '%s is updated with dot2_to_int(%s): the %s bound must be rounded %s (offset %s) or the coverage mask is one pixel short on that side and the last quarter-pixel column/row of coverage is clamped away' % (f, fmt(b, other[2][0])[:100], f.split('_')[1], 'down (offset <= 0)' if mm == 'min' else 'up (offset >= %d)' % up, k))
+        deps = dt.direct_deps(an, other)
+        for x in deps:
+            if len(x) == 5 and x[0] == 'field' and x[2] in ('x', 'y') and strip_all(x[1])[0] in ('mem', 'param', 'phi') and strip_all(x[1])[1] in (2, 3, 5):
+                feeds.setdefault((f, strip_all(x[1])[1], x[2]), set()).add(pt[0])
+    ctx.floor(R, 'bounds updates in add_edge', n, 6)
+    need = [('bounds_left', 2, 'x'), ('bounds_left', 3, 'x'), ('bounds_right', 2, 'x'), ('bounds_right', 3, 'x'), ('bounds_top', 2, 'y'), ('bounds_bottom', 3, 'y')]
+    names = {2: 'start', 3: 'end', 5: 'control'}
+    for f, l, ax in need:
+        blocks = feeds.get((f, l, ax), set())
+        okc = bool(blocks) and all(cfg.must_pass_through(0, blocks, exits=[i])[0] for i in inserts)
+        ctx.check(okc, R, key + '|%s covers %s.%s' % (f, names[l], ax), b.loc(), '%s takes %s.%s into account on every inserting path' % (f, names[l], ax),
+                  '%s does not take %s.%s into account on every path that inserts the edge: the coverage mask can be too small for the edge' % (f, names[l], ax))
+    for f in ('bounds_left', 'bounds_right'):
+        ctx.check(bool(feeds.get((f, 5, 'x'))), R, key + '|%s covers control.x' % f, b.loc(), '%s takes the control point of a curve into account' % f,
+                  '%s ignores the control point of a curve edge: a curve that bulges beyond its end points is clamped to a mask that is too narrow' % f)
+
+
+def r01_12(ctx):
+    """an edge that starts above the surface is brought to row 0 by stepping it once per skipped sample row with
+    ActiveEdge::step (which also advances the forward differences of a curve): the insertion row is only ever changed
+    by `row += 1` inside a loop whose every iteration calls step(row)"""
+    R = 'R01.12'
+    b = ctx.body(RAS + 'add_edge', R)
+    an = ctx.an(b)
+    cfg = an.cfg
+    key = 'rasterizer::Rasterizer::add_edge'
+    rows = set()
+    for a, v, pt, kind in an.stores:
+        if kind == 'assign' and field_path(a)[1][:1] == ['edge_starts']:
+            for x in subterms(a):
+                if x[0] == 'index':
+                    i = strip_casts(x[2], ('IntToInt',))
+                    if i[0] in ('phi', 'rec'):
+                        rows.add(i[1] if i[0] == 'phi' else an.defs[i[1]].local)
+    if not ctx.check(len(rows) == 1, R, key + '|insertion row', b.loc(), 'insertion row variable found', 'cannot identify the variable indexing edge_starts at the insertion (found %d): fail closed' % len(rows)):
+        return
+    row = list(rows)[0]
+    loops = cfg.loops()
+    steps = set(bi for bi, d, ct in calls_in(ctx, b) if d == 'raqote::rasterizer::ActiveEdge::step' and strip_casts(ct[2][1], ('IntToInt',))[0] in ('phi', 'rec') and (strip_casts(ct[2][1], ('IntToInt',))[1] == row or (strip_casts(ct[2][1], ('IntToInt',))[0] == 'rec' and an.defs[strip_casts(ct[2][1], ('IntToInt',))[1]].local == row)))
+    ds = [d for d in an.defs_of.get(row, []) if d.bb in cfg.reach]
+    inits = [d for d in ds if d.kind == 'assign' and not any(d.bb in bl for bl in loops.values())]
+    incs = [d for d in ds if d not in inits]
+    ctx.check(len(inits) == 1, R, key + '|row initialised once', b.loc(), 'row := y1 once', 'the insertion row is assigned %d times outside the stepping loop (e.g. reset to 0 after a closed-form jump): a curve edge must be stepped row by row so that its forward differences stay in phase' % len(inits))
+    bad = []
+    for d in incs:
+        t = an.def_term(d) if d.kind == 'assign' else None
+        p = poly(t) if t is not None else None
+        is_inc = p is not None and p.d.get((), 0) == 1 and len([m for m in p.d if m != ()]) == 1 and list(p.leaves())[0][0] in ('phi', 'rec')
+        in_loop = [h for h, bl in loops.items() if d.bb in bl]
+        stepped = bool(in_loop) and all(not cfg.cycle_through(h, loops[h], steps) for h in in_loop) and bool(steps)
+        if not (is_inc and stepped):
+            bad.append(fmt(b, t) if t is not None else d.kind)
+    ctx.check(not bad and bool(incs), R, key + '|row advanced only by stepping', b.loc(), 'row += 1 only in a loop that calls e.step(row) on every iteration',
+              'the insertion row is changed without stepping the edge (%s): an edge (in particular a curve edge, whose step() also advances its segment state) entering from above the surface arrives at row 0 with the wrong x and stale stepping state' % (bad or 'no stepping loop found'))
